@@ -38,12 +38,22 @@ type Conf struct {
 	DebugLog    bool // a debug-level logger: the library's debug branches run
 	FrameChunk  int  // reference server: max payload bytes per compressed frame (0 = one frame per block)
 	LCKeyWidth  int  // reference server: LowCardinality key type at least this wide
+	MixMethods  int  // reference server: every n-th frame is compressed with another method (0: never)
+	frameNo     int
 }
 
 func (c *Conf) Negotiated() int { return min(c.ClientRev, c.ServerRev) }
 
 // Method is the frame method byte the reference server uses for this client.
 func (c *Conf) Method() byte {
+	if c.MixMethods > 0 && c.Comp != ch.CompressionDisabled {
+		// a server is free to choose the method frame by frame (an incompressible
+		// block goes out as None, say): every n-th frame uses another method
+		c.frameNo++
+		if c.frameNo%c.MixMethods == 0 {
+			return []byte{refproto.MethodNone, refproto.MethodLZ4, refproto.MethodZSTD}[(c.frameNo/c.MixMethods)%3]
+		}
+	}
 	switch c.Comp {
 	case ch.CompressionLZ4, ch.CompressionLZ4HC:
 		return refproto.MethodLZ4
@@ -97,6 +107,7 @@ func DrawConf(c *choice.Stream) *Conf {
 	cf.Otel = c.Bool("otel", 1, 4) // instrumented code path (global no-op providers unless C12 installs an SDK)
 	cf.FrameChunk = c.Pick("srv.framechunk", 0, 0, 0, 3, 33, 1000)
 	cf.LCKeyWidth = c.Pick("srv.lckeys", 0, 0, 0, 1, 2, 3)
+	cf.MixMethods = c.Pick("srv.mixmethods", 0, 0, 0, 1, 2, 3)
 	cf.Hello = refproto.ServerHello{Name: "ClickHouse", Major: 23, Minor: 8, Revision: cf.ServerRev, Timezone: "UTC", DisplayName: "sim", Patch: 3}
 	return cf
 }
